@@ -39,7 +39,8 @@ def G(name, harness, entry=None, srcs=(), defs=(), arch=64, enforce=(), replace=
       rewrite=(), native=True, native_srcs=None, search=0, fn=(), note="",
       obj_bits=None, ndebug=False, fast=False, neg_control=False, cfg_indep=False,
       no_shims=False, native_defs=(), stubs=(), expect_fail=(), dfcc=False,
-      inline_loops=False, split=False, src_defs=(), spec_unwind=None):
+      inline_loops=False, split=False, src_defs=(), spec_unwind=None, branch_hook=None,
+      native_cflags=()):
     """One obligation group.
     spec_unwind: unwinding bound for the loops of harness/spec functions (h_*, r_*, mon_*),
                 so that `unwind` can stay tight for the loops of the repository code
@@ -212,6 +213,12 @@ def build_goto(g, wd, env, pid="X"):
     if rc != 0:
         raise Infra("goto-cc link failed: %s" % (err or out)[-1500:])
     cur = a
+    if g["branch_hook"]:
+        a2 = os.path.join(wd, "a_br.gb")
+        rc, out, err, _, to = slot_sh(["goto-instrument", "--branch", g["branch_hook"], a, a2], timeout=300, env=env)
+        if rc != 0:
+            raise Infra("goto-instrument --branch failed: %s" % (err or out)[-800:])
+        cur = a2
     need_dfcc = g["enforce"] or g["replace"] or g["loops"] or g["dfcc"] or g["inline_loops"]
     if need_dfcc:
         b = os.path.join(wd, "b.gb")
@@ -351,11 +358,21 @@ def run_cbmc_split(g, binary, env):
     for p in props:
         (own if p.get("class") == "assertion" and p["name"].startswith(g["entry"] + ".")
          else rest).append(p["name"])
-    jobs = [[n] for n in own] + ([rest] if rest else [])
+    UNW = ["<unwinding assertions>"]
+    jobs = [[n] for n in own] + ([rest] if rest else []) + ([UNW] if g["unwind"] is not None else [])
     agg = dict(backend=g["backend"], cmd=None, rc=0, results=[], status="success", msgs="",
                wall=0.0, timed_out=False)
     def one(names):
         g2 = dict(g)
+        if names is UNW:
+            # --property filters out the unwinding assertions (they are generated during
+            # symbolic execution), so they get a run of their own: without it an
+            # insufficient bound would silently cut paths
+            g2["checks"] = []
+            g2["backend"] = "sat"
+            g2["extra"] = [x for x in g["extra"] if x != "--no-standard-checks"] + \
+                ["--no-standard-checks", "--no-assertions", "--slice-formula"]
+            return run_cbmc(g2, binary, env, _split=True)
         g2["extra"] = list(g["extra"]) + [x for n in names for x in ("--property", n)]
         if names is rest and g["backend"] != "sat":
             g2["backend"] = "sat"      # generated safety checks are linear: SAT decides them
@@ -371,7 +388,7 @@ def run_cbmc_split(g, binary, env):
                 agg["results"] += [dict(property=n, description="(no answer) " + n, status="UNKNOWN")
                                    for n in names]
                 continue
-            agg["results"] += [x for x in r["results"] if x.get("property") in names]
+            agg["results"] += [x for x in r["results"] if names is UNW or x.get("property") in names]
     agg["timed_out"] = False  # per-property unknowns are already recorded
     return agg
 
@@ -552,12 +569,20 @@ def native_build(g, wd, env):
     if g["fast"]:
         defs.append("-DSAFE_FAST")
     srcs = g["native_srcs"] if g["native_srcs"] is not None else g["srcs"]
-    files = [os.path.join(VERIF, g["harness"]), os.path.join(VERIF, "lib/native_rt.c")] + \
-        [os.path.join(REPO, s) for s in srcs if not s.endswith("core/util.c")]
     lib = native_lib(g.get("_pid", "X"), g, env)
-    cmd = ["gcc", "-g", "-O1", "-fsanitize=address,undefined", "-fno-sanitize-recover=undefined",
-           "-fno-omit-frame-pointer", "-w"] + inc + defs + files + [lib, "-o", exe, "-lpthread", "-ldl"]
-    rc, out, err, _, to = sh(cmd, timeout=600, env=env)
+    base = ["gcc", "-g", "-O1", "-fsanitize=address,undefined", "-fno-sanitize-recover=undefined",
+            "-fno-omit-frame-pointer", "-w"] + inc + defs
+    objs = []
+    units = [(os.path.join(VERIF, g["harness"]), []), (os.path.join(VERIF, "lib/native_rt.c"), [])] + \
+        [(os.path.join(REPO, s), list(g["native_cflags"])) for s in srcs if not s.endswith("core/util.c")]
+    for i, (f, extra) in enumerate(units):
+        o = os.path.join(wd, "n%d.o" % i)
+        rc, out, err, _, to = slot_sh(base + extra + ["-c", f, "-o", o], timeout=600, env=env)
+        if rc != 0:
+            raise Infra("native build failed: %s" % (err or out)[-2000:])
+        objs.append(o)
+    rc, out, err, _, to = slot_sh(["gcc", "-fsanitize=address,undefined"] + objs + [lib, "-o", exe, "-lpthread", "-ldl"],
+                                  timeout=600, env=env)
     if rc != 0:
         raise Infra("native build failed: %s" % (err or out)[-2000:])
     return exe
@@ -646,7 +671,7 @@ def run_group(pid, g, tier, seed, keep=False):
             ids = [m.group(1) for m in re.finditer(r"^Loop (\S+):", lout, re.M)]
             g = dict(g)
             g["unwindset"] = list(g["unwindset"]) + ["%s:%d" % (i, g["spec_unwind"]) for i in ids
-                                                     if re.match(r"^(h_|r_|o_|mon_|spec_)", i)]
+                                                     if re.match(r"^(h_|r_|o_|ct_|v_|mon_|spec_)", i)]
         cr = run_cbmc(g, binary, env)
         R["backend_used"] = cr["backend"]
         R["solver_wall_s"] = round(cr["wall"], 2)
